@@ -128,25 +128,25 @@ def ok : Bool :=
   | some p1, some p2 => (match execAll (init []) (cmds (tagged p1) (tagged p2)) with | some r => good r | none => false)
   | _, _ => false
 
-theorem runs : ok = true := by decide +kernel
+end Demo
 
-theorem admissible_append (adm : Job → Path → Prop) (cs ds : List Cmd) (h1 : admissible adm cs) (h2 : admissible adm ds) :
-    admissible adm (cs ++ ds) := by
+theorem demo_runs : Demo.ok = true := by decide +kernel
+
+theorem admissible_append (adm : Sys.Job → Path → Prop) (cs ds : List Sys.Cmd) (h1 : Sys.admissible adm cs) (h2 : Sys.admissible adm ds) :
+    Sys.admissible adm (cs ++ ds) := by
   induction cs with
   | nil => simpa using h2
-  | cons c cs ih => cases c <;> simp_all [admissible]
+  | cons c cs ih => cases c <;> simp_all [Sys.admissible]
 
-theorem admissible_steps (adm : Job → Path → Prop) (n a : Nat) : admissible adm (List.replicate n (.step a)) := by
+theorem admissible_steps (adm : Sys.Job → Path → Prop) (n a : Nat) : Sys.admissible adm (List.replicate n (.step a)) := by
   induction n with
-  | zero => simp [admissible]
-  | succ n ih => simpa [List.replicate_succ, admissible] using ih
-
-end Demo
+  | zero => simp [Sys.admissible]
+  | succ n ih => simpa [List.replicate_succ, Sys.admissible] using ih
 
 /-- a run of the interpreted skeleton in which two requests are acknowledged, one entry is persisted, nothing stays reserved -/
 example : ∃ tr st, Sys.Run Admitted (Sys.init []) tr st ∧ st.sh.store.length = 1 ∧ st.sh.held = [] ∧
     Demo.finishes tr = [(1, true, some 0), (2, true, some 0)] := by
-  have h := Demo.runs
+  have h := demo_runs
   unfold Demo.ok at h
   split at h
   · rename_i p1 p2 h1 h2
@@ -157,9 +157,9 @@ example : ∃ tr st, Sys.Run Admitted (Sys.init []) tr st ∧ st.sh.store.length
     have a2 : Admitted Demo.job2 (tagged p2) := ⟨_, hep, rfl, p2, hm2, rfl⟩
     have hadm : Sys.admissible Admitted (Demo.cmds (tagged p1) (tagged p2)) := by
       unfold Demo.cmds
-      refine Demo.admissible_append _ _ _ (Demo.admissible_append _ _ _ (Demo.admissible_append _ _ _ (Demo.admissible_append _ _ _
-        (Demo.admissible_append _ _ _ ?_ (Demo.admissible_steps _ _ _)) ?_) (Demo.admissible_steps _ _ _)) (Demo.admissible_steps _ _ _))
-        (Demo.admissible_steps _ _ _)
+      refine admissible_append _ _ _ (admissible_append _ _ _ (admissible_append _ _ _ (admissible_append _ _ _
+        (admissible_append _ _ _ ?_ (admissible_steps _ _ _)) ?_) (admissible_steps _ _ _)) (admissible_steps _ _ _))
+        (admissible_steps _ _ _)
       · exact ⟨a1, trivial⟩
       · exact ⟨a2, trivial⟩
     cases hr : Sys.execAll (Sys.init []) (Demo.cmds (tagged p1) (tagged p2)) with
